@@ -40,6 +40,8 @@ def strategy(tier: str) -> Any:
 
 
 def run_shard(H: Harness) -> None:
+    if H.tier == "thorough":
+        sc.run_small_scope(H, ("seq",))
     H.run_hypothesis(strategy)
 
 
